@@ -52,6 +52,10 @@ def group_params(draw, njobs, max_est=6):
         "nproc": nproc,
         "cpus": draw(st.integers(1, 4)),
         "verbose": draw(st.sampled_from([False] * 9 + [True])),
+        # time scale: walltime and the estimates of the group's jobs are multiplied by it (walltimes of minutes, hours
+        # -- two-digit hour fields -- and days); hours optionally zero-padded ("04:00:00")
+        "tscale": draw(st.sampled_from([1, 1, 1, 1, 1, 10, 60, 100, 150, 240])),
+        "pad": draw(st.sampled_from([False, False, True])),
     }
 
 
